@@ -1,5 +1,6 @@
 //@@ module: chess/movegen/tables/magics.rs
 //@@ tag: c07
+//@@ needs: chess__bitboard@iter.rs
 // Contracts of the magic-bitboard machinery.  `walk_*` below are the repo's own first-principles generators
 // (attacks::generate_*), which C07.walk.* ties to the coordinate geometry for all inputs.
 use crate::verif_support::geo;
@@ -446,4 +447,146 @@ fn vk_c07_canary_magics() {
     set_not_masks_for(s);
     let occ = Bitboard::new(kani::any());
     assert!(table_index_rook(s, occ) < TABLE_LEN / 2); // must FAIL: the upper half of the table is used
+}
+
+// ---- init loops and lookups against callee contracts -----------------------------------------------------------
+use crate::chess::bitboard::verif_kani_iter as iter;
+
+pub static mut SUBSET_YIELDED: u64 = 0;
+pub static mut SUBSET_OF: u64 = 0;
+pub static mut SUBSET_CALLS: u8 = 0;
+/// one-shot contract form of the subset iterator (justified by C07.magic.subsets_successor): yields ONE arbitrary
+/// subset of its mask, then None
+fn one_shot_subset_next(it: &mut SubsetsOf) -> Option<Bitboard> {
+    let was = it.stop;
+    it.stop = true;
+    if was {
+        return None;
+    }
+    let b: u64 = kani::any();
+    kani::assume(b & !it.bitboard.as_u64() == 0);
+    unsafe {
+        SUBSET_YIELDED = b;
+        SUBSET_OF = it.bitboard.as_u64();
+        SUBSET_CALLS += 1;
+    }
+    Some(Bitboard::new(b))
+}
+/// callee contracts: "some deterministic function" of the arguments (their own contracts are C07.magic.index_* and C07.walk.*)
+fn index_contract(s: Square, b: Bitboard) -> usize {
+    ((s.idx() as u64 * 1_000_003 + (b.as_u64() % 999_983) * 7) % (TABLE_LEN as u64)) as usize
+}
+fn walk_contract(s: Square, b: Bitboard) -> Bitboard {
+    Bitboard::new(b.as_u64().rotate_left(s.idx() as u32) ^ 0x5555_0000_AAAA_FFFF)
+}
+
+fn init_attacks_writes(rook: bool) {
+    let j: usize = kani::any();
+    kani::assume(j < TABLE_LEN);
+    let before = unsafe { ATTACKS_TABLE[j] };
+    iter::rec_reset();
+    unsafe { SUBSET_CALLS = 0; }
+    if rook { initialise_rook_attacks() } else { initialise_bishop_attacks() }
+    let s = iter::yielded(0);
+    let b = Bitboard::new(unsafe { SUBSET_YIELDED });
+    kani::cover!(b.any());
+    assert!(iter::calls() == 1 && unsafe { SUBSET_CALLS } == 1);
+    // the subsets enumerated are those of the relevant-occupancy mask of the visited square
+    let mask = if rook { generate_rook_occupancies(s) } else { generate_bishop_occupancies(s) };
+    assert!(unsafe { SUBSET_OF } == mask.as_u64());
+    let idx = index_contract(s, b);
+    assert!(unsafe { ATTACKS_TABLE[idx] } == walk_contract(s, b));
+    if j != idx {
+        assert!(unsafe { ATTACKS_TABLE[j] } == before);
+    }
+}
+
+//@ obligation: C07.tables.rook_init_writes
+//@ domain: complete
+//@ functions: chess/movegen/tables/magics.rs::initialise_rook_attacks
+//@ timeout: 1500
+//@ mem_gb: 8
+//@ note: the real init function with its two loops in one-shot contract form (an arbitrary square of the full board, an arbitrary subset of that square's relevant-occupancy mask) and its callees table_index_rook / generate_rook_attacks replaced by arbitrary deterministic functions: the only table cell written is [index(s, b)] and it receives walk(s, b)
+//@ assumes: one-shot iterator contracts (C07.bitboard.square_iterator, C07.magic.subsets_successor) and independence of loop iterations
+#[kani::proof]
+#[kani::unwind(10)]
+#[kani::stub(<crate::chess::bitboard::SquareIterator as std::iter::Iterator>::next, iter::one_shot_square_next)]
+#[kani::stub(<SubsetsOf as std::iter::Iterator>::next, one_shot_subset_next)]
+#[kani::stub(table_index_rook, index_contract)]
+#[kani::stub(crate::chess::movegen::tables::attacks::generate_rook_attacks, walk_contract)]
+fn vk_c07_rook_init_writes() {
+    init_attacks_writes(true);
+}
+
+//@ obligation: C07.tables.bishop_init_writes
+//@ domain: complete
+//@ functions: chess/movegen/tables/magics.rs::initialise_bishop_attacks
+//@ timeout: 1500
+//@ mem_gb: 8
+//@ assumes: one-shot iterator contracts and independence of loop iterations
+#[kani::proof]
+#[kani::unwind(10)]
+#[kani::stub(<crate::chess::bitboard::SquareIterator as std::iter::Iterator>::next, iter::one_shot_square_next)]
+#[kani::stub(<SubsetsOf as std::iter::Iterator>::next, one_shot_subset_next)]
+#[kani::stub(table_index_bishop, index_contract)]
+#[kani::stub(crate::chess::movegen::tables::attacks::generate_bishop_attacks, walk_contract)]
+fn vk_c07_bishop_init_writes() {
+    init_attacks_writes(false);
+}
+
+//@ obligation: C07.tables.not_masks_init
+//@ domain: complete
+//@ functions: chess/movegen/tables/magics.rs::initialise_rook_not_masks, chess/movegen/tables/magics.rs::initialise_bishop_not_masks
+//@ timeout: 900
+//@ mem_gb: 6
+//@ note: for the arbitrary square the loop visits, the not-mask cell of that square receives the complement of its relevant-occupancy mask and no other cell changes (this is the value the index obligations assume)
+#[kani::proof]
+#[kani::unwind(10)]
+#[kani::stub(<crate::chess::bitboard::SquareIterator as std::iter::Iterator>::next, iter::one_shot_square_next)]
+fn vk_c07_not_masks_init() {
+    let j = geo::any_square();
+    let (rb, bb0) = unsafe { (ROOK_NOT_MASKS[j.array_idx()], BISHOP_NOT_MASKS[j.array_idx()]) };
+    iter::rec_reset();
+    initialise_rook_not_masks();
+    initialise_bishop_not_masks();
+    let (s1, s2) = (iter::yielded(0), iter::yielded(1));
+    kani::cover!(s1 != s2);
+    assert!(iter::calls() == 2);
+    assert!(unsafe { ROOK_NOT_MASKS[s1.array_idx()] } == generate_rook_occupancies(s1).invert());
+    assert!(unsafe { BISHOP_NOT_MASKS[s2.array_idx()] } == generate_bishop_occupancies(s2).invert());
+    if j != s1 {
+        assert!(unsafe { ROOK_NOT_MASKS[j.array_idx()] } == rb);
+    }
+    if j != s2 {
+        assert!(unsafe { BISHOP_NOT_MASKS[j.array_idx()] } == bb0);
+    }
+}
+
+pub static mut LOOKUP_J: usize = 0;
+fn index_is_j(_s: Square, _b: Bitboard) -> usize {
+    unsafe { LOOKUP_J }
+}
+
+//@ obligation: C07.tables.lookups_read_index
+//@ domain: complete
+//@ functions: chess/movegen/tables/magics.rs::rook_attacks, chess/movegen/tables/magics.rs::bishop_attacks
+//@ timeout: 900
+//@ mem_gb: 8
+//@ note: the two lookups return exactly the table cell at the computed index (index function replaced by "returns an arbitrary in-range J"; cell J holds an arbitrary word)
+#[kani::proof]
+#[kani::unwind(4)]
+#[kani::stub(table_index_rook, index_is_j)]
+#[kani::stub(table_index_bishop, index_is_j)]
+fn vk_c07_lookups_read_index() {
+    let j: usize = kani::any();
+    kani::assume(j < TABLE_LEN);
+    let v: u64 = kani::any();
+    unsafe {
+        LOOKUP_J = j;
+        ATTACKS_TABLE[j] = Bitboard::new(v);
+    }
+    let s = geo::any_square();
+    let occ = Bitboard::new(kani::any());
+    kani::cover!(v != 0);
+    assert!(rook_attacks(s, occ).as_u64() == v && bishop_attacks(s, occ).as_u64() == v);
 }
